@@ -146,7 +146,11 @@ theorem C09_payload_roundtrip (cs : Charset) (hcs : cs ≠ .utf8) (m : MetaMsg)
           | some r =>
             rw [hf] at hfind
             simp only [Option.map_some, Option.some.injEq] at hfind
-            simp only [hfind, nat_int _ hh0, nat_int _ hm0, nat_int _ hs0, nat_int _ hf0, nat_int _ hsf0]
+            have c1 : ¬ (nm.toNat > 59) := by omega
+            have c2 : ¬ (ns.toNat > 59) := by omega
+            have c3 : ¬ (nsf.toNat > 99) := by omega
+            simp only [c1, c2, c3, if_false, hfind, nat_int _ hh0, nat_int _ hm0, nat_int _ hs0,
+              nat_int _ hf0, nat_int _ hsf0]
   | time_signature =>
     match vals, hlen with
     | [n, d, c, b], _ =>
